@@ -343,8 +343,13 @@ class Gen:
 
 # ------------------------------------------------------------------ canonical value trees
 
+SHAPE = [False]     # malformed stream: leaf payloads are not compared (they may be non-canonical)
+
+
 def leaf_tree(cls, v):
     from bacpypes.primitivedata import Tag
+    if SHAPE[0]:
+        return {"p": 0}
     t = Tag()
     cls(v).encode(t)
     return {"p": [t.tagLVT, bytes(t.tagData).hex()]}
@@ -352,6 +357,8 @@ def leaf_tree(cls, v):
 
 def atom_tree(v):
     from bacpypes.primitivedata import Tag
+    if SHAPE[0]:
+        return {"a": v._app_tag}
     t = Tag()
     v.encode(t)
     return {"a": [t.tagNumber, t.tagLVT, bytes(t.tagData).hex()]}
@@ -412,7 +419,7 @@ def blank(v):
         if "p" in v:
             return {"p": 0}
         if "a" in v:
-            return {"a": v["a"][0]}
+            return {"a": v["a"][0] if isinstance(v["a"], list) else v["a"]}
         return {k: blank(x) for k, x in v.items()}
     if isinstance(v, list):
         return [blank(x) for x in v]
@@ -470,6 +477,8 @@ def impl_decode(node, tags, pdu):
         obj.decode(tl)
         rest = [jtag(t) for t in tl.tagList]
     v = tree(node, obj)
+    if SHAPE[0]:
+        return {"r": "ok", "v": v, "rest": rest, "re": {}}, obj
     try:
         re = impl_encode(node, obj)
         re = {"tags": re["tags"], "hex": re["hex"]}
@@ -478,14 +487,17 @@ def impl_decode(node, tags, pdu):
     return {"r": "ok", "v": v, "rest": rest, "re": re}, obj
 
 
-def impl(case):
+def impl(case, shape=False):
     """the implementation's answer to a model request (`dec`)"""
     node = schema().nodes[case["t"]]
+    SHAPE[0] = shape
     try:
         if case["op"] == "dec":
             return impl_decode(node, case["tags"], case.get("pdu", False))[0]
     except Exception as e:
         return err_reply(e)
+    finally:
+        SHAPE[0] = False
     raise core.Infra("bad op")
 
 
@@ -677,12 +689,11 @@ def mutate(tags, rng):
 
 def shape_reply(r):
     """what is compared on the malformed stream: outcome, error kind, consumed
-    tags, shape of the value, whether it encodes again"""
+    tags, shape of the value (leaf payloads may be non-canonical there, and
+    whether such a leaf encodes again is C01's matter)"""
     if r.get("r") != "ok":
         return {"r": r.get("r"), "k": r.get("k")}
-    re = r["re"]
-    return {"r": "ok", "v": blank(r["v"]), "rest": r["rest"],
-            "re": "err:" + re["err"] if "err" in re else "ok"}
+    return {"r": "ok", "v": blank(r["v"]), "rest": r["rest"]}
 
 
 def run_malformed(ctx, drv, recs_by_type, rng, per_type):
@@ -697,7 +708,7 @@ def run_malformed(ctx, drv, recs_by_type, rng, per_type):
             if rng.random() < 0.3:
                 tags = mutate(tags, rng)
             case = {"op": "dec", "t": node.idx, "tags": tags, "pdu": node.apci}
-            a = impl(case)
+            a = impl(case, shape=True)
             if a.get("exc") in ("UnicodeDecodeError",):
                 skipped += 1          # leaf level (C01): a payload re-read as a character string
                 continue
@@ -917,7 +928,7 @@ def replay_case(ctx, drv, case, label):
                                sig=lambda c, m: (node.name, c["op"]))
     elif "tags" in case:
         c = {"op": "dec", "t": node.idx, "tags": case["tags"], "pdu": bool(case.get("pdu", node.apci))}
-        a = shape_reply(impl(c))
+        a = shape_reply(impl(c, shape=True))
         if drv:
             ctx.compare_stream(label, [c], [a], [shape_reply(b) for b in drv.ask([c])],
                                sig=lambda c_, m: (node.name, m.get("k") or "ok"))
